@@ -81,10 +81,11 @@ func splitCount(n int, props M) (k int, fragile bool) {
 	ratio := numOr(props, "ratio", 0)
 	x := float64(n) * ratio
 	k = int(math.Floor(x))
-	// the float product lands just BELOW an integer the decimal ratio may have been meant to reach (10 x 0.3 style):
-	// floor of the product and floor of the intended value differ, so the case is not judged. A product at or just
-	// above an integer is unambiguous (both readings give that integer).
-	if !isDyadic(ratio) && x < math.Round(x) && math.Round(x)-x < 1e-9 {
+	// the float product may differ from the exact product of n and the ratio by an ulp; if it lands within a few ulps of
+	// an integer without being equal to it, floor() of the two can differ and the case is not judged. A product that IS
+	// an integer, or misses one by more than that (0.9999999999 for n=3, ratio=0.3333333333), is unambiguous.
+	// (only a product within a few ulps of an integer without being equal to it is affected: 1e-12 relative)
+	if d := math.Abs(x - math.Round(x)); !isDyadic(ratio) && d != 0 && d < 1e-12*math.Max(1, math.Abs(x)) {
 		fragile = true
 	}
 	mn := int(numOr(props, "min", 0))
